@@ -27,6 +27,19 @@ def run(rep, prog, tier):
     from ..report import Retag
     from .c10 import r7 as gc_bookkeeping
     gc_bookkeeping(Retag(rep, "C20-R7"), prog)
+    r8(rep, prog)
+
+
+def r8(rep, prog):
+    """validation intersects the committed files with the managed list as persisted, not as remembered"""
+    from ._managed import managed_list_readers
+    from ..rules import rule_precede
+    R = "C20-R8"
+    rep.rule(R, "the managed set used by validation is current: Index::validate_checksum re-reads meta.json (searchable_segment_metas) but intersects its files with ManagedDirectory::list_managed_files, the in-memory copy this Index handle loaded when it was opened. Every segment committed later through another handle (Index::open twice, another process) is outside that copy and silently skipped — 'reports exactly the files whose content no longer matches'. Rule: in validate_checksum a re-read of `.managed.json` (a call reaching Directory::atomic_read(MANAGED_FILEPATH)) precedes list_managed_files")
+    base, readers = managed_list_readers(prog)
+    rep.floor(R, "functions that read .managed.json back", len(base), 1)
+    rule_precede(rep, prog, R, "tantivy::index::index::Index::validate_checksum", readers, {MDI + "list_managed_files"},
+                 "a re-read of .managed.json", "ManagedDirectory::list_managed_files", a_ok=True, key="validate_checksum refreshes the managed list before it uses it")
 
 
 def r6(rep, prog):
